@@ -196,6 +196,28 @@ def variants(rng, sysi, s):
     """spellings related to s: trailing zero components (0, 00), leading zeros, case changes,
     separator changes, an added/removed build tag or prerelease number"""
     out = []
+    if sysi == 2:
+        # Go: only spellings x/mod/semver-style parsers accept (leading v, at most three numbers), plus the
+        # ecosystem's own shapes (pseudo-versions, +incompatible)
+        h, sp, tl = s.partition(b"+")
+        cr, da, pr = h.partition(b"-")
+        k = rng.randrange(6)
+        if k == 0 and cr.count(b".") < 2:
+            out.append(cr + b".0" + da + pr + sp + tl)
+        elif k == 1:
+            out.append(h + b"+incompatible")
+            out.append(h)
+        elif k == 2:
+            out.append(cr + b"-0.20190101000000-abcdef123456")
+            out.append(cr + b"-0.20200101000000-abcdef123456")
+        elif k == 3 and da:
+            out.append(cr + da + pr + rng.choice([b".0", b".1", b"0"]) + sp + tl)
+            out.append(cr + da + pr.swapcase() + sp + tl)
+        elif k == 4:
+            out.append(h + b"+" + rng.choice([b"x", b"1", b"build.2"]))
+        else:
+            out.append(cr)
+        return [v for v in out if v != s]
     head, sep, tail = s.partition(b"+")
     core, dash, pre = head.partition(b"-")
     k = rng.randrange(7)
